@@ -41,8 +41,8 @@ def gen_spec(rng, idx, nonlinear=None, exact_init=False, big=False):
     states = []
     for i in range(nS):
         nom = rng.choice(NOMS)
-        mode = rng.choice(["fixed", "fixed", "fixed0", "free", "initeq", "steady", "pstart"])
-        if exact_init and mode == "free":
+        mode = rng.choice(["fixed", "fixed", "fixed0", "free", "free0", "initeq", "steady", "pstart"])
+        if exact_init and mode in ("free", "free0"):
             mode = "fixed"
         if mode == "pstart" and nP == 0:
             mode = "fixed"
